@@ -391,7 +391,7 @@ func c16Sim(r *simcore.Run) {
 				}
 				w.reason = "torn-at-boundary"
 			case 3: // unsupported content replaces the file, then the valid version
-				bad := simcore.Pick(s, []string{"rsa1024", "ed25519", "garbage", "cert-only", "empty", "no-digsig"}, "bad-content")
+				bad := simcore.Pick(s, []string{"rsa1024", "ed25519", "garbage", "cert-only", "empty", "no-digsig", "rsa1024-later-entry"}, "bad-content")
 				w.reason = "invalid:" + bad
 				w.torn = []int{-1}
 				switch bad {
@@ -408,6 +408,12 @@ func c16Sim(r *simcore.Run) {
 				case "empty":
 					w.v = ksVersion{pem: nil, why: "empty"}
 					w.raw = nil
+					w.torn = nil
+				case "rsa1024-later-entry":
+					// valid entries followed by one with an unsupported key size: the store parses, the reload must still be rejected as a whole
+					b, _ := os.ReadFile(simkeys.FixturePath("rsa1024"))
+					w.raw = append(append([]byte(nil), w.v.pem...), b...)
+					w.v = ksVersion{pem: w.raw, why: "unsupported key in a later entry"}
 					w.torn = nil
 				case "no-digsig":
 					// a different key whose certificate must be rejected by the signer; every entry carries it so that
